@@ -4,6 +4,7 @@
 package core
 
 import (
+	"sync"
 	"fmt"
 	"go/ast"
 	"go/token"
@@ -44,6 +45,10 @@ type Program struct {
 
 	renamed   map[string]*DeclSite
 	pinnedOf  map[string]string
+	fieldMaps *fieldMaps
+	renameMu  sync.Mutex
+	pinOnce   sync.Once
+	fieldOnce sync.Once
 	RenamedTo map[string]string // function of the pinned tree -> its current name, for the renames that were resolved
 }
 
@@ -135,6 +140,8 @@ func Load(dir, goarch string) (*Program, error) {
 		}
 	}
 	activeProgram = p
+	p.fields()
+	p.PinnedName("")
 	return p, nil
 }
 
